@@ -27,7 +27,7 @@ from pbt.gen.build import build_score
 PROPERTY = "C04"
 ENGINES = ["hypothesis"]
 ASSUMPTIONS = [
-    "no two sounding notes of equal pitch overlap or touch across different (part, voice) pairs anywhere in the score (so the precondition holds for all six modes); touching equal pitches inside one voice are allowed",
+    "no two sounding notes of equal pitch overlap across different (part, voice) pairs anywhere in the score (so the precondition holds for all six modes); in two thirds of the cases they do not touch either, in one third a note may start exactly where an equal pitch of another voice or part ends; in one third of the cases equal pitches of voices / parts that the mode of the case writes to different tracks or channels overlap freely; touching equal pitches inside one voice are always allowed; a grace note never touches an equal pitch",
     "parts of one score share the metrical structure (measures, signatures, pickup) in musical time and differ in divisions and notes",
     "time-signature meta events are compared for anacrusis behaviours 'shift' and 'pad_bar'; under 'time_sig_change' the library deliberately rewrites signatures and only notes, keys and tempi are compared",
     "tempo marks are placed in the first part only (tempo is global in a MIDI file)",
@@ -95,9 +95,12 @@ def _scale_part(ps, k, pid, prefix, keep):
     return q
 
 
-def _make_disjoint(parts):
-    """Deterministically re-pitch sounding notes so that equal pitches never overlap or touch
-    across different (part, voice) pairs and never overlap inside one."""
+def _make_disjoint(parts, touch=None, overlap=None, same_channel=None):
+    """Deterministically re-pitch sounding notes so that equal pitches never overlap across different
+    (part, voice) pairs and never overlap inside one.  touch=None: they do not touch across pairs either;
+    touch=[bool, ...]: touching is allowed (the precondition of the property only excludes overlap), and
+    for every note whose flag (cyclically) is set, the pitch of a note of another pair that ends exactly
+    where it starts is tried first.  Grace notes never touch an equal pitch."""
     items = []
     for pi, ps in enumerate(parts):
         byid = {n["id"]: n for n in ps["notes"]}
@@ -121,11 +124,17 @@ def _make_disjoint(parts):
         for step in "CDEFGAB":
             for alter in (0, 1, -1):
                 cands.append((step, alter, octave))
-    for it in items:
+    spelled = {}
+    for idx, it in enumerate(items):
         on, off, pi, voice, chain, grace = it
         head = chain[0]
         want = (head["step"], head["alter"], head["octave"])
-        for (step, alter, octave) in [want] + cands:
+        first = []
+        if overlap and overlap[idx % len(overlap)] and not grace:
+            first = [spelled[pl] for pl in placed if pl[0] <= on < pl[1] and not same_channel((pl[2], pl[3]), (pi, voice)) and pl in spelled]
+        if touch and touch[idx % len(touch)] and not grace:
+            first += [spelled[pl] for pl in placed if pl[1] == on and pl[0] < pl[1] and (pl[2], pl[3]) != (pi, voice) and pl in spelled]
+        for (step, alter, octave) in first + [want] + cands:
             p = G.midi_pitch(step, alter, octave)
             if not (21 <= p <= 108):
                 continue
@@ -134,10 +143,17 @@ def _make_disjoint(parts):
                 if pp != p:
                     continue
                 same_voice = (pj == pi and vj == voice)
+                if overlap is not None and not same_voice and not same_channel((pj, vj), (pi, voice)):
+                    continue  # another track or channel: no constraint
                 if same_voice and not grace:
                     if a < off and on < b:  # overlap (touching allowed)
                         clash = True
                     if a == on:  # simultaneous start (e.g. grace note before this note)
+                        clash = True
+                elif touch is not None and not grace and a < b:
+                    if a < off and on < b:  # overlap (touching allowed)
+                        clash = True
+                    if a == on:
                         clash = True
                 else:
                     if a <= off and on <= b:  # overlap or touch
@@ -148,9 +164,33 @@ def _make_disjoint(parts):
                 for c in chain:
                     c["step"], c["alter"], c["octave"] = step, alter, octave
                 placed.append((on, off, pi, voice, p))
+                spelled[(on, off, pi, voice, p)] = (step, alter, octave)
                 break
         else:
             raise AssertionError("no free pitch")
+
+
+@st.composite
+def group_tree(draw, n):
+    """Any nesting of part groups over parts 0..n-1 (in order)."""
+    counter = [0]
+
+    def level(lo, hi, depth):
+        out = []
+        i = lo
+        while i < hi:
+            j = draw(st.integers(i + 1, hi))
+            if depth < 3 and (j - i >= 2 or draw(st.integers(0, 2)) == 0) and not (depth > 0 and (i, j) == (lo, hi) and draw(st.booleans())):
+                counter[0] += 1
+                out.append({"symbol": "bracket", "name": "G%d" % counter[0], "number": counter[0], "children": level(i, j, depth + 1)})
+                i = j
+            else:
+                out.append(i)
+                i += 1
+        return out
+
+    tree = level(0, n, 0)
+    return None if all(isinstance(x, int) for x in tree) else tree
 
 
 @st.composite
@@ -158,37 +198,85 @@ def score_spec(draw, tier):
     prof = dict(PROFILE)
     if tier == "thorough":
         prof["max_bars"] = 5
+    # division changes inside a measure / measures that are shorter or longer than their signature
+    shape = draw(st.sampled_from(["plain", "plain", "plain", "midbar", "irregular", "both"]))
+    prof["midbar_changes"] = shape in ("midbar", "both")
+    prof["irregular"] = shape in ("irregular", "both")
     p0 = draw(G.part_spec(prof, pid="P1", note_prefix="a"))
     nparts = draw(st.sampled_from([1, 1, 2, 2, 3]))
     parts = [p0]
     for i in range(1, nparts):
         k = draw(st.sampled_from([1, 2, 3, 5]))
         keep = draw(st.lists(st.booleans(), min_size=1, max_size=6))
-        if not any(keep):
+        # (a part that keeps no note at all: it gets no track)
+        if not any(keep) and draw(st.integers(0, 2)) != 0:
             keep[0] = True
         parts.append(_scale_part(p0, k, "P%d" % (i + 1), "bcd"[i - 1], keep))
     parts = [dict(p, notes=[dict(n) for n in p["notes"]]) for p in parts]
-    _make_disjoint(parts)
+    # voice labels: any distinct numbers (0, gaps, > 16), one voice without number
+    for ps in parts:
+        voices = sorted(set(n["voice"] for n in ps["notes"]))
+        if draw(st.integers(0, 2)) == 0:
+            labels = draw(st.lists(st.sampled_from([None, 0, 1, 2, 3, 4, 5, 7, 9, 17, 40]), min_size=len(voices), max_size=len(voices), unique=True))
+            vmap = dict(zip(voices, labels))
+            for n in ps["notes"]:
+                n["voice"] = vmap[n["voice"]]
     groups = None
     if nparts >= 2:
-        gk = draw(st.sampled_from(["none", "all", "first-two"])) if nparts == 3 else draw(st.sampled_from(["none", "all"]))
+        gk = draw(st.sampled_from(["none", "all", "first-two", "tree", "tree"])) if nparts == 3 else draw(st.sampled_from(["none", "all", "tree"]))
         if gk == "all":
             groups = [{"symbol": "bracket", "name": "G1", "number": 1, "children": list(range(nparts))}]
         elif gk == "first-two":
             groups = [{"symbol": "brace", "name": "G1", "number": 1, "children": [0, 1]}, 2]
-    # tempo marks in the first part at distinct bar lines
+        elif gk == "tree":
+            groups = draw(group_tree(nparts))
+    mode = draw(st.integers(0, 5))
+    touch = None
+    if draw(st.integers(0, 2)) == 0:
+        touch = draw(st.lists(st.booleans(), min_size=1, max_size=5))
+    overlap = None
+    if mode != 4 and draw(st.integers(0, 2)) == 0:
+        overlap = draw(st.lists(st.booleans(), min_size=1, max_size=5))
+    exp_tc = expected_track_channel(parts, groups, mode)
+    _make_disjoint(parts, touch, overlap, lambda a, b: exp_tc.get(a) == exp_tc.get(b))
+    if nparts >= 2 and draw(st.integers(0, 5)) == 0:
+        # part ids need not be unique (parts are told apart as objects)
+        for ps in parts:
+            ps["id"] = "P1"
+    # tempo marks in the first part at distinct bar lines, sometimes at a note onset inside a measure
     tempos = []
+    onsets = sorted(set(n["t"] for n in parts[0]["notes"]))
     for m in p0["measures"]:
         if draw(st.integers(0, 3)) == 0:
-            tempos.append([m[0], draw(st.sampled_from([40, 60, 72, 90, 120, 144, 200])), draw(st.sampled_from([None, "q", "h", "e", "q."]))])
-    parts[0]["tempos"] = tempos
+            t = m[0]
+            if onsets and draw(st.integers(0, 3)) == 0:
+                t = draw(st.sampled_from(onsets))
+            if all(x[0] != t for x in tempos):
+                tempos.append([t, draw(st.sampled_from([40, 60, 72, 90, 120, 144, 200])), draw(st.sampled_from([None, "q", "h", "e", "q."]))])
+    parts[0]["tempos"] = sorted(tempos, key=lambda x: x[0])
+    # how the functions are called: argument type, kind of output, kind of input, import options
+    api = {"arg": "score", "out": "path", "src": "path", "assign_note_ids": True, "quantization_unit": None}
+    if draw(st.booleans()):
+        args = ["score", "partlist"]
+        if nparts == 1:
+            args.append("part")
+        if groups and len(groups) == 1 and isinstance(groups[0], dict):
+            args.append("group")
+        api["arg"] = draw(st.sampled_from(args))
+        api["out"] = draw(st.sampled_from(["path", "file", "return"]))
+        api["src"] = draw(st.sampled_from(["path", "object"]))
+        api["assign_note_ids"] = draw(st.booleans())
+        api["quantization_unit"] = draw(st.sampled_from([None, 1]))
     return {
         "parts": parts,
         "groups": groups,
-        "mode": draw(st.integers(0, 5)),
+        "mode": mode,
         "anacrusis": draw(st.sampled_from(ANACRUSIS)),
         "min_ppq": draw(st.sampled_from([0, 0, 96, 480, 1000])),
         "velocity": draw(st.sampled_from([64, 1, 30, 100, 127])),
+        "touch": touch,
+        "overlap": overlap,
+        "api": api,
     }
 
 
@@ -295,11 +383,57 @@ def oracle(spec):
     o.cls("grace", any(k[1] == 0 for k in exp_notes))
     o.cls("parts-%d" % len(parts))
     o.cls("min-ppq-doubling", spec["min_ppq"] > 0)
+    # ---- shapes added by the generator audit (docs/audit/C04.md)
+    api = spec.get("api") or {}
+    labels = [sorted(set(str(n.get("voice")) for n in ps["notes"])) for ps in parts]
+    o.cls("voice-labels-not-1..k", any(l != [str(i) for i in range(1, len(l) + 1)] for l in labels))
+    o.cls("voice-none", any(n.get("voice") is None for ps in parts for n in ps["notes"]))
+    spans = defaultdict(list)
+    for pi, (ps, tr) in enumerate(zip(parts, trefs)):
+        for (t, dur, pitch, hid, ids) in tr.ref.sounding_notes():
+            if dur > 0:
+                voice = [n for n in ps["notes"] if n["id"] == hid][0].get("voice")
+                spans[pitch].append((tr.quarter(t), tr.quarter(t + dur), pi, voice))
+    touching = [(x, y) for lst in spans.values() for x in lst for y in lst if x[1] == y[0] and x[2:] != y[2:]]
+    o.cls("equal-pitch-touching-across-voices", bool(touching))
+    o.cls("equal-pitch-touching-across-parts", any(x[2] != y[2] for x, y in touching))
+    overlapping = [(x, y) for lst in spans.values() for x in lst for y in lst if x is not y and x[0] < y[1] and y[0] < x[1] and x[2:] != y[2:]]
+    o.cls("equal-pitch-overlapping-on-other-channel-or-track", bool(overlapping))
+
+    def depth(nodes):
+        return max([1 + depth(x["children"]) for x in nodes or [] if isinstance(x, dict)] + [0])
+
+    o.cls("nested-groups", depth(spec["groups"]) >= 2)
+    o.cls("part-without-notes", any(not [k for k in exp_groups if k[0] == pi] for pi in range(len(parts))))
+    o.cls("part-ids-not-unique", len(set(ps["id"] for ps in parts)) < len(parts))
+    bars0 = set(m[0] for m in parts[0]["measures"])
+    o.cls("tempo-inside-measure", any(t[0] not in bars0 for t in parts[0].get("tempos", [])))
+    o.cls("division-change-inside-measure", any(t not in set(m[0] for m in ps["measures"]) for ps in parts for t, _ in ps["divs"][1:]))
+    o.cls("irregular-measure", any(
+        (trefs[0].ref.quarter(m[1]) - trefs[0].ref.quarter(m[0])) != Fraction(trefs[0].ref.ts_at(m[0])[0] * 4, trefs[0].ref.ts_at(m[0])[1])
+        for m in parts[0]["measures"][1:]))
+    o.cls("save-arg-" + api.get("arg", "score"))
+    o.cls("save-out-" + api.get("out", "path"))
+    o.cls("load-src-" + api.get("src", "path"))
+    o.cls("load-options", api.get("assign_note_ids") is False or api.get("quantization_unit") is not None)
 
     with tempfile.TemporaryDirectory() as tmp:
         path = os.path.join(tmp, "s.mid")
-        call(save_score_midi, score, path, part_voice_assign_mode=mode, velocity=spec["velocity"],
-             anacrusis_behavior=anac, minimum_ppq=spec["min_ppq"])
+        arg = api.get("arg", "score")
+        data = score if arg == "score" else list(score.part_structure) if arg == "partlist" else pobjs[0] if arg == "part" else score.part_structure[0]
+        kw = dict(part_voice_assign_mode=mode, velocity=spec["velocity"], anacrusis_behavior=anac, minimum_ppq=spec["min_ppq"])
+        mf_obj = None
+        if api.get("out") == "file":
+            with open(path, "wb") as fh:
+                call(save_score_midi, data, fh, **kw)
+        elif api.get("out") == "return":
+            mf_obj = call(save_score_midi, data, None, **kw)
+            if not isinstance(mf_obj, mido.MidiFile):
+                o.add("no-midifile-returned-without-out", got=type(mf_obj).__name__)
+                return o
+            mf_obj.save(path)
+        else:
+            call(save_score_midi, data, path, **kw)
         tpb, notes, metas = read_midi(path)
         # ---- oracle A: direct reading ------------------------------------------------------
         if tpb != ppq:
@@ -377,7 +511,15 @@ def oracle(spec):
             # (documented TODO for non-integer lengths); a 0/x signature is not a readable score file
             o.excluded.append("time-sig-change-wrote-zero-beat-signature")
             return o
-        sc2 = call(load_score_midi, path, part_voice_assign_mode=mode)
+        src = path
+        if api.get("src") == "object":
+            src = mf_obj if mf_obj is not None else mido.MidiFile(path)
+        lkw = {}
+        if api.get("assign_note_ids") is False:
+            lkw["assign_note_ids"] = False
+        if api.get("quantization_unit") is not None:
+            lkw["quantization_unit"] = api["quantization_unit"]  # one tick: every time is a multiple already
+        sc2 = call(load_score_midi, src, part_voice_assign_mode=mode, **lkw)
         got_groups = defaultdict(Counter)
         gots = Counter()
         for pj, p2 in enumerate(sc2.parts):
@@ -409,15 +551,21 @@ def oracle(spec):
 
 
 def _group_of(groups, nparts):
-    """part index -> group key (top-level group index or ('solo', part index))."""
+    """part index -> group key (index of the top-level group, also for parts in nested groups, or ('solo', part index))."""
     res = {}
     if not groups:
         return {i: ("solo", i) for i in range(nparts)}
+
+    def leaves(node):
+        if isinstance(node, int):
+            return [node]
+        return [x for c in node["children"] for x in leaves(c)]
+
     for gi, g in enumerate(groups):
         if isinstance(g, int):
             res[g] = ("solo", g)
         else:
-            for c in g["children"]:
+            for c in leaves(g):
                 res[c] = ("group", gi)
     return res
 
@@ -483,13 +631,51 @@ def known_grace_same_voice_order(spec, d):
     return False
 
 
+def _touching_in_one_channel(spec):
+    """MIDI pitches p such that a note of pitch p ends exactly where a note of pitch p of another (part, voice)
+    pair starts, and both pairs are written to the same track and channel under the mode of the case."""
+    parts = spec["parts"]
+    exp_tc = expected_track_channel(parts, spec["groups"], spec["mode"])
+    spans = defaultdict(list)
+    for pi, ps in enumerate(parts):
+        tr = G.TimeRef(ps)
+        for (t, dur, pitch, hid, ids) in tr.ref.sounding_notes():
+            if dur > 0:
+                voice = [n for n in ps["notes"] if n["id"] == hid][0].get("voice")
+                spans[pitch].append((tr.quarter(t), tr.quarter(t + dur), (pi, voice)))
+    res = set()
+    for pitch, lst in spans.items():
+        for x in lst:
+            for y in lst:
+                if x[1] == y[0] and x[2] != y[2] and exp_tc.get(x[2]) == exp_tc.get(y[2]):
+                    res.add(pitch)
+    return res
+
+
+def known_note_on_before_note_off(spec, d):
+    """The exporter writes the voices that share a track one after the other without ordering the events of one
+    tick: the note on of a note can precede the note off of a note of the same pitch and channel that ends there;
+    both importers then lose one note and read the other with length zero."""
+    if d.kind not in ("performance-import-notes-differ", "score-import-notes-differ"):
+        return False
+    pitches = _touching_in_one_channel(spec)
+    det = d["detail"]
+    return bool(pitches) and all(x[2] in pitches for x in det["missing"] + det["extra"])
+
+
 SUBCHECKS = [
     SubCheck(
         "score_midi_roundtrip",
         oracle,
         strategy=lambda tier: score_spec(tier),
         budget={"quick": 200, "thorough": 4000},
-        rule="generated scores (1-3 parts sharing the metrical structure, divisions differing per part and inside a part incl. 3/5/6/7/12, tuplets, pickups, grace notes, tie chains, part groups, tempo marks) x 6 part_voice_assign_modes x 3 anacrusis behaviours x minimum_ppq x velocity; the written file is read by an independent tick interpreter and re-imported; non-trivial = a tick position that is not a binary fraction of a quarter or >= 2 division values",
-        floors={"pickup": 0.05, "grace": 0.03, "non-binary-tick-position": 0.1},
+        rule="generated scores (voice labels any numbers or None, equal pitches that touch across voices and parts, any nesting of part groups, parts without notes, division changes inside measures, irregular measures, tempo marks inside measures, every documented argument / output / input kind of save_score_midi and load_score_midi; 1-3 parts sharing the metrical structure, divisions differing per part and inside a part incl. 3/5/6/7/12, tuplets, pickups, grace notes, tie chains, part groups, tempo marks) x 6 part_voice_assign_modes x 3 anacrusis behaviours x minimum_ppq x velocity; the written file is read by an independent tick interpreter and re-imported; non-trivial = a tick position that is not a binary fraction of a quarter or >= 2 division values",
+        known={"note-on-before-note-off-of-equal-pitch-at-one-tick": known_note_on_before_note_off},
+        floors={"pickup": 0.05, "grace": 0.03, "non-binary-tick-position": 0.1,
+                # shapes added by the generator audit (docs/audit/C04.md)
+                "equal-pitch-touching-across-voices": 0.05, "equal-pitch-overlapping-on-other-channel-or-track": 0.03, "equal-pitch-touching-across-parts": 0.03, "voice-labels-not-1..k": 0.15, "voice-none": 0.08,
+                "nested-groups": 0.015, "part-without-notes": 0.04, "part-ids-not-unique": 0.05, "tempo-inside-measure": 0.04,
+                "division-change-inside-measure": 0.03, "irregular-measure": 0.01, "save-arg-partlist": 0.02, "save-arg-part": 0.015,
+                "save-out-file": 0.03, "save-out-return": 0.03, "load-src-object": 0.04, "load-options": 0.07},
     ),
 ]
